@@ -34,8 +34,11 @@ ASSUMPTIONS = [
 # ("nsother": a <%namespace import=..> of ANOTHER name - binds nothing relevant, but switches the generated lookups of
 # every context name to the form that consults the imports first)
 SITES = ["ctx", "page", "body", "defarg", "encl", "loop", "module", "import", "builtin", "nsother"]
-READS = ["body", "topdef", "topdef-callbody", "nested", "anonblock", "namedblock", "callbody", "ctl", "attr", "attr-multi", "filter"]
-BODY_SCOPE_READS = {"body", "anonblock", "callbody", "ctl", "attr", "attr-multi", "filter"}
+READS = ["body", "topdef", "topdef-callbody", "nested", "anonblock", "namedblock", "callbody", "ctl", "attr", "attr-multi", "filter",
+         "calldef-bodyarg"]
+# ("calldef-bodyarg": read in a <%def> written inside a call whose body() takes an argument of the SAME name: the argument
+# belongs to body() alone, the def resolves the name like the call body's surroundings do)
+BODY_SCOPE_READS = {"body", "anonblock", "callbody", "ctl", "attr", "attr-multi", "filter", "calldef-bodyarg"}
 _k = itertools.count()
 
 
@@ -128,6 +131,9 @@ def build(S, r):
         read = '<%block name="nb">' + RD + "</%block>"
     elif r == "callbody":
         read = '<%call expr="w()">' + RD + "</%call>"
+    elif r == "calldef-bodyarg":
+        head += '<%def name="lay()">${caller.hd()}</%def>'
+        read = '<%%call expr="lay()" args="%s"><%%def name="hd()">%s</%%def>unused body</%%call>' % (name, RD)
     elif r == "ctl":
         read = "\n%% for z in [R(%s)]:\n${z}\n%% endfor\n" % name
     elif r == "attr":
